@@ -412,6 +412,8 @@ func forceNum(r *mon.Rng, s *scal, op *string) {
 	}
 }
 
+var nHugeFrames int
+
 func genConn(seed uint64, stream uint64, idx int, o genOpts, id int) connD {
 	r := mon.NewRng(seed, stream, uint64(idx))
 	tag := fmt.Sprintf("%s%d", o.letter, idx)
@@ -467,6 +469,16 @@ func genConn(seed uint64, stream uint64, idx int, o genOpts, id int) connD {
 			n = budget
 		}
 		budget -= n
+		// a few connections carry one frame far larger than carbon's usual 500 datapoints per message: the list
+		// order must survive whatever the handler does to get through a big frame
+		hugeEvery := 97
+		if mon.Thorough() {
+			hugeEvery = 397
+		}
+		if o.workload == wlMain && idx%hugeEvery == 5 && f == 0 {
+			n = r.Range(4096, 12000)
+			nHugeFrames++
+		}
 		fd.Items = make([]itemD, 0, n)
 		for i := 0; i < n; i++ {
 			if i > 0 && r.Chance(1, 25) && !o.bytes3 { // the very same object again: memo GET / BINGET
